@@ -12,7 +12,7 @@ HEAD_AT_START = ""
 W = os.environ.get("MATRIX_WORKER", "")
 WT = "/var/tmp/scratch/wt-matrix" + W
 OUT = "/var/tmp/scratch/matrix-out" + W
-INSTANCE = ["C03", "C04", "C05"]
+INSTANCE = ["C03", "C04", "C05", "C06"]   # (C06: every function of the generation path carries obligations)
 # A change in package P can alter only the obligations of functions of P (verification is modular: other
 # packages see P's contracts, not its bodies), so the checks that can be affected are the properties that
 # P's contract file mentions, plus the instance-wise checks for anything on the generation path.
@@ -30,7 +30,7 @@ def affected(files, allprops):
     props = set()
     for f in files:
         if f.endswith(".templ"):
-            props.update(INSTANCE)
+            props.update(INSTANCE + ["C17"])
             continue
         d = os.path.dirname(f)
         hit = False
